@@ -4,6 +4,8 @@ import (
 	"crypto/sha256"
 	"encoding/hex"
 	"fmt"
+	"os"
+	"runtime"
 	"sort"
 	"strings"
 	"sync"
@@ -20,6 +22,8 @@ type (
 )
 
 func NewRng(seed uint64) *Rng { return simplan.NewRng(seed) }
+
+var debugCounters = os.Getenv("VERIF_DEBUG_CTR") != ""
 
 // Event is one simulator-visible event.
 type Event struct {
@@ -70,6 +74,10 @@ func (r *Run) Ev(who, kind, format string, a ...interface{}) int {
 		d = fmt.Sprintf(format, a...)
 	}
 	at := r.NowMs()
+	if debugCounters {
+		a, b := RuntimeCounters()
+		d += fmt.Sprintf(" [rt %d/%d g=%d]", a, b, runtime.NumGoroutine())
+	}
 	r.mu.Lock()
 	r.seq++
 	s := r.seq
